@@ -66,11 +66,13 @@ func init() {
 // replayable input
 
 type caseInput struct {
-	Op       string    `json:"op"` // "name" | "type" | "unknown" | "independence" | "schedule" | "list" | "free"
-	Name     string    `json:"name,omitempty"`
-	Type     string    `json:"type,omitempty"`
-	Repo     string    `json:"repo,omitempty"`
-	Schedule *schedule `json:"schedule,omitempty"`
+	Op       string      `json:"op"` // "name" | "type" | "unknown" | "independence" | "schedule" | "list" | "free"
+	Name     string      `json:"name,omitempty"`
+	Type     string      `json:"type,omitempty"`
+	Repo     string      `json:"repo,omitempty"`
+	Schedule *schedule   `json:"schedule,omitempty"`
+	Payload  string      `json:"payload,omitempty"`
+	Path     []stateStep `json:"path,omitempty"`
 }
 
 type outcome struct {
@@ -564,6 +566,8 @@ func replay(class string, raw json.RawMessage) (string, bool) {
 		out = judgeList()
 	case "listfresh":
 		_, out = listFresh()
+	case "statepath":
+		return replayStatePath(in)
 	case "type":
 		if in.Repo != "" {
 			if s, err := scanSource(in.Repo); err == nil && !contains(s.dptTypes, in.Type) {
@@ -689,6 +693,8 @@ func (c *ctx) report(out []outcome, in caseInput, test func() string) {
 
 func run(r *enumlib.Run) {
 	c := &ctx{r: r, repo: r.Repo}
+	// first of all, while the package is in the state its initialisation left it in
+	c.stateSpace()
 	names := sortedNames()
 
 	// (1) listed names
